@@ -57,7 +57,14 @@ pub trait ErrInfo {
 
 impl ErrInfo for io::Error {
     fn info(&self) -> CallRes {
-        CallRes::Io(self.kind(), self.to_string().contains(MARKER))
+        // the injected payload may sit anywhere in the source chain of a re-wrapped error
+        let mut marker = self.to_string().contains(MARKER);
+        let mut src: Option<&(dyn std::error::Error + 'static)> = self.get_ref().map(|e| e as &(dyn std::error::Error + 'static));
+        while let Some(e) = src {
+            marker |= e.to_string().contains(MARKER);
+            src = e.source();
+        }
+        CallRes::Io(self.kind(), marker)
     }
 }
 
@@ -154,7 +161,8 @@ impl Judge {
                     (CallRes::Merge(true), Kind::Merge) => true,
                     (CallRes::Io(k, marker), kind) if kind != Kind::Merge => {
                         self.marker_survived = *marker;
-                        *k == plan.err.io()
+                        // "carrying that failure": same ErrorKind, or the injected error itself inside a wrapper
+                        *k == plan.err.io() || *marker
                     }
                     _ => false,
                 };
@@ -405,7 +413,7 @@ impl Prop for C12 {
          fault-free run counts the N calls of each kind {write, flush, read, seek, create, merge}; then for EVERY kind and \
          EVERY k < N the scenario is re-run with the k-th call of that kind failing (error kinds cycled from a generated \
          list incl. write returning Ok(0); never Interrupted). Oracle per public call: no panic; Ok iff no component failed \
-         during it; the failing call returns Io with the injected ErrorKind (or Merge with the injected value). The \
+         during it; the failing call returns Io with the injected ErrorKind or wrapping the injected error (or Merge with the injected value). The \
          fault-free run must report no error. non-trivial = fault fired in a public call other than the first and not on \
          that call's first component call; distinct = hash(scenario, kind, k)"
             .into()
